@@ -429,7 +429,7 @@ def run_playback(test_name, release, workdir):
     if release:
         cmd.append("--release")
         env.update({"CARGO_PROFILE_RELEASE_LTO": "false", "CARGO_PROFILE_RELEASE_CODEGEN_UNITS": "16"})
-    cmd += ["--", "--exact", "--nocapture", test_name]
+    cmd += ["--", "--nocapture", test_name]
     logf = os.path.join(workdir, f"replay-{'release' if release else 'dev'}-{test_name[-12:]}.log")
     with open(logf, "w") as lf:
         p = subprocess.run(cmd, cwd=OVERLAY, env=env, stdout=lf, stderr=subprocess.STDOUT)
